@@ -542,7 +542,14 @@ func (self *Interpreter) castExpression(node ast.AnalyzedCastExpression) (*value
 	// }
 
 	// TODO: implement a `deepCast` method which can convert [ {} ] -> [ { ? } ]
-	return value.DeepCast(*base, node.AsType, node.Span(), true)
+	casted, i := value.DeepCast(*base, node.AsType, node.Span(), true)
+	if i != nil {
+		// a failed cast is a normal (catchable) exception, just like on the VM
+		if castErr, isRuntimeErr := (*i).(value.RuntimeErr); isRuntimeErr && castErr.ErrKind == value.CastErrorKind {
+			return nil, value.NewThrowInterrupt(castErr.Span, "Cast error: "+castErr.MessageInternal)
+		}
+	}
+	return casted, i
 
 	panic(fmt.Sprintf("Unsupported runtime cast from %v to %s", (*base).Kind(), node.AsType.Kind()))
 }
